@@ -382,6 +382,11 @@ struct WorldL : World {
           if (!ok || sp == std::string::npos || rest.size() - sp - 1 != 24 || rest.substr(0, sp).find('\t') != std::string::npos) { violate("C12.mbox-from-line", "\"" + printable(l) + "\" is not From envsender date(24)"); return; }
           bool known = false; for (auto *d : dels) { std::string s = d->sender().empty() ? "MAILER-DAEMON" : d->sender(); for (auto &c : s) if (c == ' ' || c == '\t' || c == '\n') c = '-'; if (s == rest.substr(0, sp)) known = true; }
           if (!known) { violate("C12.mbox-from-line", "envelope sender in \"" + printable(l) + "\" belongs to no delivery"); return; }
+          // the date is the delivery time the way myctime.c writes it (asctime with a zero-padded day), UTC: some second between the start of the run and now
+          { std::string date = rest.substr(sp + 1); bool hit = false; int64_t lo = k->start_clock_, hi = k->clock; if (hi - lo > 4000) lo = hi - 4000;   // (long runs: the last hour is checked exactly, the rest by form)
+            static const char *wd[] = {"Sun", "Mon", "Tue", "Wed", "Thu", "Fri", "Sat"}; static const char *mo[] = {"Jan", "Feb", "Mar", "Apr", "May", "Jun", "Jul", "Aug", "Sep", "Oct", "Nov", "Dec"};
+            for (int64_t t = k->start_clock_; t <= hi && !hit; t = (t < lo ? lo : t + 1)) { time_t tt = (time_t)t; struct tm tm; gmtime_r(&tt, &tm); char b[64]; snprintf(b, sizeof b, "%s %s %02d %02d:%02d:%02d %d", wd[tm.tm_wday], mo[tm.tm_mon], tm.tm_mday, tm.tm_hour, tm.tm_min, tm.tm_sec, 1900 + tm.tm_year); if (date == b) hit = true; }
+            if (!hit) { violate("C12.mbox-from-line", "date \"" + printable(date) + "\" in the From_ line is not the delivery time (run from " + std::to_string(k->start_clock_) + " to " + std::to_string(hi) + ")"); return; } }
         }
       }
     }
